@@ -358,14 +358,17 @@ _upd('C07', engine='E1 pyvc + E4 + E3 side obligations', technique=(
                '(none skipped, none reused), builds the generator from the reserved set and recurses into every child; finalize closes, builds the '
                'generator from the reserved keywords and remaps top-level names iff obfuscate_globals.'))
 _upd('C08', text_add='Added: the Lexer.input / Parser.parse / get_lexer_token contracts shared with C06/C11 (positions refer to the text as given).')
-_upd('C09', technique=('deductive contracts (z3) on Names, Bookkeeper, normalize_mapping_line (loop contract over lines of any length: abstract '
+_upd('C09', technique=('deductive contracts (z3) on Names, Bookkeeper, sourcemap.write (both loops cut, Bookkeeper / Names used by their proved '
+                       'contracts, ghost decoder view, per-piece assertions), normalize_mapping_line (loop contract over lines of any length: abstract '
                        'input sequence, fold-abstracted output list, ghost absolute view), verify_write_sourcemap_args and write_sourcemap (wiring, '
-                       'recording doubles); sourcemap.write by bounded executable contract against an independent Source Map V3 decoder'),
+                       'recording doubles); the composition of the layers by bounded executable contract against an independent Source Map V3 decoder'),
      text_add=('normalize_mapping_line: for every input segment, a consumer interpolating linearly from the last emitted segment sees the same '
                'source file, line and column; named segments are emitted themselves; the carry equals what the decoder is behind. '
                'verify_write_sourcemap_args: `file` and every `sources` entry are made relative to the map, the URL relative to the output.'),
-     note='Trusted: C10, str.splitlines, json/base64, the independent decoder, os.path (normrelpath bounded). Bounded only: write(), '
-          'normalize_mappings(), Names.__iter__, encode_sourcemap.')
+     note='Trusted: C10, str.splitlines, json/base64, the independent decoder, os.path (normrelpath bounded). write(): for fragment streams of '
+          'any length, every positioned piece is mapped at the column where it is written to its own file / line / column / name, a mapping line '
+          'ends exactly after a piece ending in CR or LF, continuation lines of a multi-line chunk are at (line + k, 1); inferred positions '
+          '(lineno or colno 0) are not constrained. Bounded only: normalize_mappings(), Names.__iter__, encode_sourcemap, the composition.')
 _upd('C10', text_add='Added: purity obligations on vlq.py (no store outside call-local values, no module-level mutable state) and a bounded '
                      'call-edit-call history.')
 _upd('C11', text_add='Added: the Lexer.input / Parser.parse / get_lexer_token contracts shared with C06/C08.')
